@@ -552,7 +552,7 @@ type c34Worker struct {
 	queryMask                      *c34Mask
 }
 
-const c34DistinctCapPerWorker = 1 << 19
+const c34DistinctCapPerWorker = 1 << 18
 
 func c34NewWorker(ph c34Phase, qm *c34Mask) *c34Worker {
 	w := &c34Worker{ph: ph, distinct: map[uint64]struct{}{}, queryMask: qm}
